@@ -130,6 +130,15 @@ func genDispatch(tier string, seed uint64, idx int) interface{} {
 		x.sc.Apps = [][]AOp{{{K: "ping"}}}
 		return x.sc
 	}
+	if r.Bool(1, 4) {
+		// a second life of the client in the same process, under the same
+		// client identifier: after the server dropped the connection (the
+		// application never calls Disconnect on the dead client) or after a
+		// Disconnect; the second CONNECT is accepted or refused with a code
+		x.sc.Reconnect = []string{"drop-ok", "drop-ok", "drop-code", "disc-ok", "disc-code"}[r.Intn(5)]
+		x.sc.ReCode = byte(1 + r.Intn(5))
+		x.sc.ReNew = r.Bool(1, 2)
+	}
 	napps := 1 + r.Intn(2)
 	overlap := tier == "thorough" || r.Bool(1, 4)
 	seq := 0
